@@ -23,7 +23,7 @@ CLAIMED = {
    text="Seeded search over 3-D workloads x simulated schedules: the real voxel::render on the simulated executor versus a brute-force heightmap (Context::eval on every voxel, plus the voxels just above the grid to recognise the excluded columns) and f64 dual gradients for normals.",
    technique="deterministic simulation (seeded fork-join executor replacing rayon) + brute-force heightmap/gradient oracle"),
  "C09": dict(engine="E1-par-sim", ref="5/C09",
-   text="Seeded search over schedules and cancel instants: 2-D/3-D renders and octree meshing run on the simulated executor with pool sizes 1..=16, drawn split trees, item interleavings, stop-flag visibility and a cancel fired before the call / before executor item j / before poll j / never; results must equal the sequential run bit for bit, a pre-cancelled or post-cancel-polled run must return None, an uncancelled run must return Some. One pool execution in four is preemptive (segments on baton-passing OS threads, hand-over at sched points inside interpreter loops and before native calls), and one run in four is the E5 shared-tape simulation (2-4 logical threads on clones of one function's tapes, each compared with its solo results). For small workloads (<= 40 polls) every cancel placement is enumerated for the sequential path and one pool. The thorough tier adds E4: shared interpreter tapes on 3 OS threads and the REAL rayon scheduler on tiny renders/meshes under Miri's seeded preemptive scheduler and data-race detector. A crash or a call that never returns is reported as a violation (child-process supervision, 30 s liveness watchdog).",
+   text="Seeded search over schedules and cancel instants: 2-D/3-D renders and octree meshing run on the simulated executor with pool sizes 1..=16, drawn split trees, item interleavings, stop-flag visibility and a cancel fired before the call / before executor item j / before poll j / never; results must equal the sequential run bit for bit, a pre-cancelled or post-cancel-polled run must return None, an uncancelled run must return Some. One pool execution in four is preemptive (segments on baton-passing OS threads, hand-over at sched points inside interpreter loops and before native calls), and one run in four is a shared-function simulation: mostly E5 (2-4 logical threads on clones of one function's tapes on the preemptive executor, each compared with its solo results), one in six of those E6, the ptrace step-sim (two REAL threads of a traced child process share one function; the simulator freezes thread A at a machine instruction of its choice - just before / just after each lock-prefixed instruction, xchg, fence or syscall A executes in the code under test, or a few instructions further - lets thread B run its whole operation list, resumes A; each thread must get its solo results; covers the native JIT code and synchronisation code that has no sched point). For small workloads (<= 40 polls) every cancel placement is enumerated for the sequential path and one pool. The thorough tier adds E4: shared interpreter tapes on 3 OS threads and the REAL rayon scheduler on tiny renders/meshes under Miri's seeded preemptive scheduler and data-race detector. A crash or a call that never returns is reported as a violation (child-process supervision, 30 s liveness watchdog).",
    technique="deterministic simulation: seeded schedule and cancel-instant search with sequential reference model"),
 
  "C10": dict(engine="E2-reuse-history", ref="5/C10",
@@ -93,6 +93,8 @@ def main():
              "kind_free_text": "seeded histories of build/eval/simplify/recycle by logical workers exchanging dirty storage, compared op by op with a fresh-objects reference model"},
             {"name": "E5-shared-tape", "path": "/verif/sim/src/e5.rs", "serves_properties": ["C09"],
              "kind_free_text": "logical threads sharing one function's tapes on the preemptive executor (real OS threads, one running at a time, baton handed over at sched points chosen by the simulator)"},
+            {"name": "E6-step-sim", "path": "/verif/sim/src/e6.rs", "serves_properties": ["C09"],
+             "kind_free_text": "two real OS threads of a ptrace-traced child share one function; thread A is run to a breakpoint planted on the k-th synchronising machine instruction it executes (found by a discovery pass over the executable's lock/xchg/fence/syscall sites), frozen there, thread B runs to completion, A resumes; one (child seed, point) pair is one exactly repeatable execution (ASLR off, getrandom seam)"},
             {"name": "E4-miri", "path": "/verif/miri-shared", "serves_properties": ["C09"],
              "kind_free_text": "thorough tier only: shared VM tapes across 3 OS threads, and the real rayon scheduler driving tiny renders/meshes with a concurrent cancel, under Miri (-Zmiri-many-seeds, preemption, data-race detection)"},
             {"name": "E3-ident-sim", "path": "/verif/sim/src/e3.rs", "serves_properties": ["C14", "C19"],
